@@ -4,7 +4,8 @@
 //	CASE <mode> <n> <hex text> [<k> <start offset of definition k> <operator>]
 //	X DEF ... / X SIG ...      expected definitions (what the text denotes; c12a: the first k of them)
 //	A DEF ... / A SIG ...      Defs() of the implementation
-//	OUT ok|err <l>:<c>:<o>|panic|hang  same|diff     outcome of Parse(); second run identical?
+//	OUT ok|err <l>:<c>:<o>|panic|hang  same|diff     outcome of Parse(); all 5 runs on these bytes identical?
+//	COV <kind>                                         a feature of the generated file (counted in the evidence)
 //
 // preceded by the classification of non-ASCII runes (UNI L|D <lo> <hi>, from unicode.IsLetter /
 // unicode.IsDigit) and, in every mode, a stream of NUM lines (strconv oracle):
@@ -37,6 +38,8 @@ var w *bufio.Writer
 // harness stops generating after a few of them (a hang is a violation of C12 by itself)
 var hangs int
 
+const parseRuns = 5
+
 type result struct {
 	kind string
 	pos  scanner.Position
@@ -54,37 +57,82 @@ func dumpDefs(defs []dbc.Def) (s string) {
 	return b.String()
 }
 
-func parseOnce(data []byte) result {
-	ch := make(chan result, 1)
+// one run of a fresh parser on a private copy of the bytes, panics caught
+func parseRun(data []byte) (res result) {
+	var p *dbc.Parser
+	defer func() {
+		if r := recover(); r != nil {
+			res.kind = "panic"
+			res.dump = ""
+			if p != nil {
+				res.dump = dumpDefs(p.Defs())
+			}
+		}
+	}()
+	p = dbc.NewParser("x", append([]byte(nil), data...))
+	err := p.Parse()
+	if err == nil {
+		res.kind = "ok"
+	} else {
+		res.kind = "err"
+		res.pos = err.Position()
+	}
+	res.dump = dumpDefs(p.Defs())
+	return res
+}
+
+// parseRuns runs of fresh parsers on the same bytes, each under a 2 s timeout: the result of the first
+// run and whether every later run gave the same outcome kind, error position and Defs()
+func parseAll(data []byte) (result, bool) {
+	ch := make(chan result, parseRuns)
 	go func() {
-		var res result
-		var p *dbc.Parser
-		defer func() {
-			if r := recover(); r != nil {
-				res.kind = "panic"
-				if p != nil {
-					res.dump = dumpDefs(p.Defs())
+		for i := 0; i < parseRuns; i++ {
+			ch <- parseRun(data)
+		}
+	}()
+	timer := time.NewTimer(2 * time.Second)
+	defer timer.Stop()
+	var first result
+	same := true
+	for i := 0; i < parseRuns; i++ {
+		if i > 0 {
+			if !timer.Stop() {
+				select {
+				case <-timer.C:
+				default:
 				}
 			}
-			ch <- res
-		}()
-		p = dbc.NewParser("x", append([]byte(nil), data...))
-		err := p.Parse()
-		if err == nil {
-			res.kind = "ok"
-		} else {
-			res.kind = "err"
-			res.pos = err.Position()
+			timer.Reset(2 * time.Second)
 		}
-		res.dump = dumpDefs(p.Defs())
-	}()
-	select {
-	case r := <-ch:
-		return r
-	case <-time.After(2 * time.Second):
-		hangs++
-		return result{kind: "hang"}
+		select {
+		case r := <-ch:
+			if i == 0 {
+				first = r
+			} else if r != first {
+				same = false
+			}
+		case <-timer.C:
+			// not finished within 2 s. On a machine that is stalled by other load this can happen to a run
+			// that takes microseconds: a hang is reported only if the run is still not finished 10 s later.
+			select {
+			case r := <-ch:
+				if i == 0 {
+					first = r
+				} else if r != first {
+					same = false
+				}
+				timer.Reset(2 * time.Second)
+				continue
+			case <-time.After(10 * time.Second):
+			}
+			hangs++
+			if i == 0 {
+				return result{kind: "hang"}, true
+			}
+			return first, false // a later run of the same bytes did not terminate
+		}
 	}
+	return first, same
 }
 
 func prefixed(prefix, dump string) {
@@ -100,13 +148,15 @@ func emitCase(mode string, n int, text []byte, extra string, expected []dbc.Def,
 	if withExpected {
 		prefixed("X", dumpDefs(expected))
 	}
-	r1 := parseOnce(text)
-	r2 := parseOnce(text)
-	prefixed("A", r1.dump)
+	// the same bytes are parsed parseRuns times by fresh parsers; "same" = every run gave the outcome, the
+	// error position and the Defs() of the first one (behaviour that depends on map iteration order or
+	// on other per-run state shows up only in some of the runs)
+	r1, allSame := parseAll(text)
 	same := "same"
-	if r1 != r2 {
+	if !allSame {
 		same = "diff"
 	}
+	prefixed("A", r1.dump)
 	switch r1.kind {
 	case "err":
 		fmt.Fprintf(w, "OUT err %x:%x:%x %s\n", r1.pos.Line, r1.pos.Column, r1.pos.Offset, same)
@@ -116,6 +166,22 @@ func emitCase(mode string, n int, text []byte, extra string, expected []dbc.Def,
 	if hangs >= 4 {
 		w.Flush()
 		os.Exit(0)
+	}
+}
+
+// features of a generated file that the evidence counts: multi-byte UTF-8 inside a string per
+// definition kind, enum values given by name, near-colliding attribute names
+func emitCoverage(mode string, f *genFile) {
+	for _, d := range f.defs {
+		for _, t := range d.toks {
+			if t.kind == kStr && strings.IndexFunc(t.text, func(r rune) bool { return r >= 0x80 }) >= 0 {
+				fmt.Fprintf(w, "COV %s-utf8-in-string-%s\n", mode, d.kind)
+				break
+			}
+		}
+		for _, tag := range d.tags {
+			fmt.Fprintf(w, "COV %s-%s\n", mode, tag)
+		}
 	}
 }
 
@@ -474,6 +540,7 @@ func main() {
 		emitNums(g, 1500)
 		for n := 0; n < files; n++ {
 			f := g.genFile(maxDefs)
+			emitCoverage("c04", f)
 			emitCase("c04", n, f.text, "", f.expected, true)
 		}
 	case "c12":
@@ -486,6 +553,7 @@ func main() {
 		n++
 		for i := 0; i < files; i++ {
 			f := g.genFile(maxDefs)
+			emitCoverage("c12a-file", f)
 			for k := range f.defs {
 				prev, adj := prevInfo(f, k)
 				for _, c := range corruptions(g, f, k) {
@@ -509,6 +577,8 @@ func main() {
 			stride = 1
 		}
 		nb := emitTokenMutations(seed, 0, all, stride)
+		// byte sweep over the string and identifier positions of the same templates (tokmut.go)
+		nb = emitByteSweep(seed, nb, all, stride)
 		for i := 0; i < nrand; i++ {
 			kind, t := randomCase(g, i)
 			emitCase("c12b", nb+i, t, " "+kind, nil, false)
